@@ -1,7 +1,119 @@
-import Atomman.Prelude
-open Atomman
+/-
+  C01 driver — the Box model as a small state machine over exact rationals.
+  One request line -> one reply line.  State: the current `Box Rat` (no reciprocal cache: `recip`
+  and `c2r` are recomputed from the current vectors, so a stale cache in the implementation shows
+  up as a disagreement).
 
-/-- stub: replaced when the C01 model is built. -/
-def handleC01 (_toks : List String) : String := err "op"
+  setters (reply `ok` or `err:…`):
+    new                                             Box()
+    vects   v0..v8 ox oy oz                         Box(vects=…, origin=…) / set(vects=…) / set_vectors
+    lengths lx ly lz xy xz yz ox oy oz              set_lengths
+    hilos   xlo xhi ylo yhi zlo zhi xy xz yz        set_hi_los
+    abc     a b c alpha beta gamma ca cb cg ly lz ox oy oz
+                                                    set_abc; ca cb cg = cosines, ly lz = the two roots
+    attr_vects v0..v8                               box.vects = …   (origin kept)
+    attr_origin ox oy oz                            box.origin = …
+  readers:
+    thr        the clean-up threshold
+    get        vects(9) origin(3) a² b² c² b·c a·c a·b volume is_lammps_norm
+    lammps     lx ly lz xy xz yz xlo xhi ylo yhi zlo zhi        | err:assert
+    recip      reciprocal_vects(9)                               | err:value (singular)
+    r2c x y z  position_relative_to_cartesian                    | err:value (not 3 numbers)
+    c2r x y z  position_cartesian_to_relative                    | err:value
+    inside x y z    inside(inclusive=True) inside(inclusive=False) margin
+    outside x y z   outside(inclusive=True) outside(inclusive=False)
+    abcres a b c ca cb cg ly lz   residuals ly² - (b²-xy²), lz² - (c²-xz²-yz²)  (hypotheses of abc_gram)
+-/
+import Atomman.C01
+open Atomman Atomman.C01
 
-def main : IO Unit := runDriver handleC01
+/-- the double nearest to `1e-9` (the literal `atol=1e-9` of the setter), exactly. -/
+def thr : Rat := mkRat 4835703278458517 4835703278458516698824704
+
+def unitBox : Box Rat := ⟨⟨⟨1, 0, 0⟩, ⟨0, 1, 0⟩, ⟨0, 0, 1⟩⟩, ⟨0, 0, 0⟩⟩
+
+def showBox (b : Box Rat) : String := showRats (b.vects.toList ++ b.origin.toList)
+
+def setOr (old : Box Rat) (r : Option (Box Rat)) (e : String) : Box Rat × String :=
+  match r with
+  | some b => (b, "ok")
+  | none => (old, err e)
+
+def stepC01 (st : Box Rat) (toks : List String) : Box Rat × String :=
+  match toks with
+  | ["new"] => (setVects thr unitBox.vects unitBox.origin, "ok")
+  | ["thr"] => (st, showRat thr)
+  | "vects" :: rest =>
+    match parseRats? rest with
+    | some [a, b, c, d, e, f, g, h, i, ox, oy, oz] =>
+      (setVects thr ⟨⟨a, b, c⟩, ⟨d, e, f⟩, ⟨g, h, i⟩⟩ ⟨ox, oy, oz⟩, "ok")
+    | _ => (st, err "format")
+  | "attr_vects" :: rest =>
+    match parseRats? rest with
+    | some [a, b, c, d, e, f, g, h, i] => (setVectsAttr thr st ⟨⟨a, b, c⟩, ⟨d, e, f⟩, ⟨g, h, i⟩⟩, "ok")
+    | _ => (st, err "format")
+  | "attr_origin" :: rest =>
+    match parseRats? rest with
+    | some [ox, oy, oz] => (setOriginAttr st ⟨ox, oy, oz⟩, "ok")
+    | _ => (st, err "format")
+  | "lengths" :: rest =>
+    match parseRats? rest with
+    | some [lx, ly, lz, xy, xz, yz, ox, oy, oz] =>
+      setOr st (setLengths? thr ⟨lx, ly, lz, xy, xz, yz⟩ ⟨ox, oy, oz⟩) "assert"
+    | _ => (st, err "format")
+  | "hilos" :: rest =>
+    match parseRats? rest with
+    | some [xlo, xhi, ylo, yhi, zlo, zhi, xy, xz, yz] =>
+      setOr st (setHiLos? thr ⟨xlo, xhi, ylo, yhi, zlo, zhi, xy, xz, yz⟩) "assert"
+    | _ => (st, err "format")
+  | "abc" :: rest =>
+    match parseRats? rest with
+    | some [a, b, c, al, be, ga, ca, cb, cg, ly, lz, ox, oy, oz] =>
+      if !(anglesOk al be ga) then (st, err "value") else
+      setOr st (setAbc? thr a b c ca cb cg ly lz ⟨ox, oy, oz⟩) "assert"
+    | _ => (st, err "format")
+  | ["abcres", a, b, c, ca, cb, cg, ly, lz] =>
+    match parseRats? [a, b, c, ca, cb, cg, ly, lz] with
+    | some [_, b, c, ca, cb, cg, ly, lz] =>
+      if ly = 0 then (st, err "value") else
+      (st, showRats [ly * ly - abcLySq b cg, lz * lz - abcLzSq b c ca cb cg ly])
+    | _ => (st, err "format")
+  | ["get"] =>
+    (st, showBox st ++ " " ++ showRats [a2 st, b2 st, c2 st, dotBC st, dotAC st, dotAB st, volume st]
+      ++ " " ++ showBool st.isLammpsNorm)
+  | ["lammps"] =>
+    match lengths? st, hilos? st with
+    | some l, some h =>
+      (st, showRats [l.lx, l.ly, l.lz, l.xy, l.xz, l.yz, h.xlo, h.xhi, h.ylo, h.yhi, h.zlo, h.zhi])
+    | _, _ => (st, err "assert")
+  | ["recip"] =>
+    if st.vects.det = 0 then (st, err "value") else (st, showRats st.recip.toList)
+  | "r2c" :: rest =>
+    match parseRats? rest with
+    | some [x, y, z] => (st, showRats (st.relToCart ⟨x, y, z⟩).toList)
+    | some _ => (st, err "value")
+    | none => (st, err "format")
+  | "c2r" :: rest =>
+    match parseRats? rest with
+    | some [x, y, z] =>
+      if st.vects.det = 0 then (st, err "value") else (st, showRats (st.cartToRel ⟨x, y, z⟩).toList)
+    | some _ => (st, err "value")
+    | none => (st, err "format")
+  | "inside" :: rest =>
+    match parseRats? rest with
+    | some [x, y, z] =>
+      if st.vects.det = 0 then (st, err "value") else
+      let p : V3 Rat := ⟨x, y, z⟩
+      (st, showBool (inside st Lams.ones p true) ++ " " ++ showBool (inside st Lams.ones p false) ++ " "
+        ++ showRat (faceMargin (st.cartToRel p)))
+    | _ => (st, err "format")
+  | "outside" :: rest =>
+    match parseRats? rest with
+    | some [x, y, z] =>
+      if st.vects.det = 0 then (st, err "value") else
+      let p : V3 Rat := ⟨x, y, z⟩
+      (st, showBool (outside st Lams.ones p true) ++ " " ++ showBool (outside st Lams.ones p false))
+    | _ => (st, err "format")
+  | _ => (st, err "op")
+
+def main : IO Unit := runDriverS stepC01 unitBox
